@@ -187,8 +187,27 @@ def lake_build(targets, timeout=3000):
     return rc == 0, out
 
 
+_private_driver = None
+
+
 def driver_exe():
-    return os.path.join(LEAN, ".lake", "build", "bin", "driver")
+    """The model driver.  Checks work on a private copy (taken under the lake lock) so that a
+    concurrent relink of .lake/build/bin/driver cannot pull the binary away mid-run."""
+    return _private_driver or os.path.join(LEAN, ".lake", "build", "bin", "driver")
+
+
+def snapshot_driver():
+    global _private_driver
+    src = os.path.join(LEAN, ".lake", "build", "bin", "driver")
+    d = os.path.join(BUILD, "bin")
+    os.makedirs(d, exist_ok=True)
+    dst = os.path.join(d, "driver.%d" % os.getpid())
+    with Lock("lake"):
+        shutil.copy2(src, dst)
+    _private_driver = dst
+    import atexit
+    atexit.register(lambda: os.path.exists(dst) and os.remove(dst))
+    return dst
 
 
 def strip_lean_comments(txt):
